@@ -282,7 +282,7 @@ pub fn big_alphabet() -> Vec<Snippet> {
     v.push(vec![inst(Inst::CsrI(CsrOp::Rw, T2, 64, 5))]);
     v.push(vec![inst(Inst::Csr(CsrOp::Rw, ZERO, 5, T0))]);
     v.push(vec![call("g")]);
-    for n in [1, 4, 5, 9, 11, 12, 30, 64, 77] {
+    for n in [1, 4, 5, 8, 9, 11, 12, 30, 42, 54, 55, 64, 77] {
         v.push(vec![li(A7, n), ecall()]);
     }
     v.push(vec![ecall()]);
